@@ -6,6 +6,8 @@
   gen/SerialGen.v     struct layouts and the three method bodies of every `impl Serializable`
   gen/MethodsGen.v    the loop-free methods of the core modules as monadic Gallina (tied to the hand models
                       by Proofs/MethodsTie.v)
+  gen/LoopsGen.v      functions with loops (BitVector scans, the bit and unary iterators) as monadic Gallina over
+                      the loop combinators of Base/Loops.v (tied to the hand models by Proofs/LoopsTieBV.v)
   gen/fingerprints.json  hash of the normalised token stream of every non-test Rust function
 
 Files are rewritten only when their content changes (so `make` sees stable timestamps).
@@ -395,7 +397,7 @@ def ty_to_coq(t, generic=None):
 
 
 def parse_struct(src, name):
-    m = re.search(r"pub struct %s\s*(<\s*([A-Z])\s*>)?\s*\{" % name, src)
+    m = re.search(r"pub struct %s\s*(<\s*(?:'[a-z_]+|([A-Z]))\s*>)?\s*\{" % name, src)
     if not m:
         raise ParseError("struct %s not found" % name)
     b0 = m.end() - 1
@@ -707,9 +709,10 @@ MODEL_CALLEES = {
     ("broadword", "msb"): ("pure", "(msb_spec %s)"),
     ("broadword", "lsb"): ("pure", "(lsb_spec %s)"),
     ("broadword", "popcount"): ("pure", "(popcN %s)"),
+    ("broadword", "select_in_word"): ("pure", "(select_in_word_spec %s)"),
 }
 BROADWORD_SIGS = {"msb": (["usize"], "Option<usize>"), "lsb": (["usize"], "Option<usize>"),
-                  "popcount": (["usize"], "usize")}
+                  "popcount": (["usize"], "usize"), "select_in_word": (["usize", "usize"], "Option<usize>")}
 
 COQ_RESERVED = set("""as at cofix else end exists exists2 fix for forall fun if IF in let match mod Prop return Set
     then Type using where with c add sub mul shl shr wmul wshl not64 idx unwrap assert_ dassert bind lenN nthN setN
@@ -725,9 +728,13 @@ def coq_ident(name):
     return name
 
 
-def parse_rtype(s, self_name):
+def parse_rtype(s, self_name, generics=None):
     s = " ".join(s.split())
     s = re.sub(r"^&\s*('[a-z_]+\s+)?(mut\s+)?", "", s)
+    if generics and s in generics:
+        return generics[s]
+    if s.startswith("(") and s.endswith(")") and s != "()":
+        return ("tuple", [parse_rtype(x, self_name, generics) for x in rp.split_top(s[1:-1], ",")])
     if s == "usize":
         return USIZE
     if s == "bool":
@@ -738,7 +745,7 @@ def parse_rtype(s, self_name):
         return (s,)
     m = re.fullmatch(r"(Option|Vec|Result)\s*<(.*)>", s)
     if m:
-        inner = parse_rtype(m.group(2), self_name)
+        inner = parse_rtype(m.group(2), self_name, generics)
         return ({"Option": "opt", "Vec": "vec", "Result": "result"}[m.group(1)], inner)
     m = re.fullmatch(r"\[(.*)\]", s)
     if m:
@@ -764,6 +771,8 @@ def coq_type(t):
         return "Z"
     if k == "u16":
         return "N"
+    if k == "tuple":
+        return "(%s)" % " * ".join(coq_type(x) for x in t[1])
     if k == "opt":
         return "(option %s)" % coq_type(t[1])
     if k == "vec":
@@ -817,6 +826,19 @@ def render(items, final):
         elif it[0] == "try":
             lines.append("match %s with None => %s | Some %s =>" % (it[1], it[3], it[2]))
             closers.append("end")
+        elif it[0] == "ifelse":                  # `while cond`: the rest is the then-branch
+            lines.append("if %s then (" % it[1])
+            closers.append(") else (%s)" % it[2])
+        elif it[0] == "matchsome":               # `if let Some(x) = e { ..jump }`: the rest is the None branch
+            lines.append("match %s with\n| Some %s =>\n%s\n| None =>" % (it[1], it[2], indent(it[3], 4)))
+            closers.append("end")
+        elif it[0] == "bindret":                 # a loop that can be left by `return`
+            term = it[2]
+            if "\n" in term:
+                term = "(" + term.replace("\n", "\n  ") + ")"
+            lines.append("%s <- %s ;;" % (it[3], term))
+            lines.append("match %s with inr v_ => Ok v_ | inl %s =>" % (it[3], it[1]))
+            closers.append("end")
         else:
             raise ParseError("internal: unknown item %r" % (it,))
     lines.append(final)
@@ -828,8 +850,12 @@ def render(items, final):
 class MethodsGen:
     """all target functions of all modules; memoised, callees first"""
 
+    type_files, modules, targets = TYPE_FILES, METHOD_MODULES, METHOD_TARGETS
+
     def __init__(self, repo):
         self.repo = repo
+        self.where = {}        # (owner, trait, fn) -> source of the `where` clause
+        self.item_ty = {}      # (owner, trait) -> source of `type Item = ..;` of that impl block
         self.src = {}          # owner -> source without tests / comment lines
         self.fns = {}          # owner -> {(trait, name): (params, ret, body)}  (first occurrence wins per key)
         self.byname = {}       # owner -> {name: [(trait, params, ret, body)]}
@@ -837,9 +863,9 @@ class MethodsGen:
         self.done = {}         # (module, fn) -> dict(name, text, pure, sig)
         self.order = []
         self.stack = []
-        self.module_of_owner = {o: m for m, o, _ in METHOD_MODULES}
-        self.const_prefix = {m: p for m, _, p in METHOD_MODULES}
-        for owner, path in TYPE_FILES.items():
+        self.module_of_owner = {o: m for m, o, _ in self.modules}
+        self.const_prefix = {m: p for m, _, p in self.modules}
+        for owner, path in self.type_files.items():
             src = strip_line_comments(rp.strip_tests(open(os.path.join(repo, path)).read()))
             self.src[owner] = src
             table, names = {}, {}
@@ -851,27 +877,35 @@ class MethodsGen:
                 for trait, ty, body in rp.impl_blocks(src):
                     if ty != owner:
                         continue
-                    for n, p, r, b, _ in rp.functions(body):
+                    im = re.search(r"\btype\s+Item\s*=\s*([^;]+);", body)
+                    if im:
+                        self.item_ty[(owner, trait)] = im.group(1).strip()
+                    for n, p, r, b, pos in rp.functions(body):
                         if (trait, n) in table:
                             raise ParseError("%s: two definitions of %s" % (owner, n))
                         table[(trait, n)] = (p, r, b)
                         names.setdefault(n, []).append((trait, p, r, b))
+                        self.where[(owner, trait, n)] = rp.function_where(body, pos)
             self.fns[owner], self.byname[owner] = table, names
-        for mod, owner, prefix in METHOD_MODULES:
-            env = {}
-            if prefix is not None:
-                for name, ty, init in rp.top_level_consts(self.src[owner]):
-                    if ty == "usize":
-                        env[name] = eval_const_src(init, env)
-            self.consts[mod] = env
+        for mod, owner, prefix in self.modules:
+            self.consts[mod] = self.module_consts(owner, prefix)
         # the record layouts assumed above must be the struct declarations of the source
-        for owner, (rec, fields) in RECORDS.items():
+        for owner in self.type_files:
+            rec, fields = RECORDS.get(owner, (None, None))
             if fields is None:
                 continue
             decl, _ = parse_struct(self.src[owner], owner)
-            if [(f, t.replace(" ", "")) for f, t in decl] != [(f, t) for f, t, _ in fields]:
+            if [(f, t.replace(" ", "")) for f, t in decl] != [(f, t.replace(" ", "")) for f, t, _ in fields]:
                 raise ParseError("struct %s changed: source has %r, the model record %s has %r" % (
                     owner, decl, rec, [(f, t) for f, t, _ in fields]))
+
+    def module_consts(self, owner, prefix):
+        env = {}
+        if prefix is not None:
+            for name, ty, init in rp.top_level_consts(self.src[owner]):
+                if ty == "usize":
+                    env[name] = eval_const_src(init, env)
+        return env
 
     # -- lookups -------------------------------------------------------------------------------
     def find_fn(self, owner, name, trait="?"):
@@ -883,15 +917,56 @@ class MethodsGen:
             raise ParseError("%s::%s: %d definitions found" % (owner, name, len(cands)))
         return cands[0]
 
+    def generics(self, owner, trait, name):
+        """generic parameters bound by `I: IntoIterator<Item = T>` (where clause): they are lists of T"""
+        out = {}
+        for part in rp.split_top(self.where.get((owner, trait, name), ""), ","):
+            m = re.fullmatch(r"\s*([A-Z])\s*:\s*IntoIterator\s*<\s*Item\s*=\s*([A-Za-z0-9_]+)\s*>\s*", part)
+            if not m:
+                raise ParseError("unsupported where clause %r" % part.strip())
+            out[m.group(1)] = ("vec", parse_rtype(m.group(2), None))
+        return out
+
+    def ret_source(self, owner, trait, ret):
+        """`Self::Item` is the associated type of the impl block"""
+        if "Self::Item" in ret:
+            if (owner, trait) not in self.item_ty:
+                raise ParseError("Self::Item without `type Item = ..;`")
+            ret = ret.replace("Self::Item", self.item_ty[(owner, trait)])
+        return ret
+
     def signature(self, owner, name, trait="?"):
         tr, params, ret, _ = self.find_fn(owner, name, trait)
         self_name = owner if owner[0].isupper() else None
-        ptys = [(n, parse_rtype(t, self_name)) for n, t in rp.typed_params(params)]
-        rty = parse_rtype(ret, self_name) if ret else UNIT
+        g = self.generics(owner, tr, name)
+        ptys = [(n, parse_rtype(t, self_name, g)) for n, t in rp.typed_params(params)]
+        rty = parse_rtype(self.ret_source(owner, tr, ret), self_name, g) if ret else UNIT
         return rp.self_kind(params), ptys, rty
 
     def is_target(self, mod, name):
-        return any(n == name for _, n in METHOD_TARGETS[mod])
+        return any(n == name for _, n in self.targets[mod])
+
+    def target_trait(self, mod, name):
+        return [t for t, n in self.targets[mod] if n == name][0]
+
+    def resolve_callee(self, from_mod, owner, name):
+        """("gen", coq name, sig) | ("res", coq name, sig) | ("pure", format, sig)"""
+        mod = self.module_of_owner.get(owner)
+        if mod == from_mod and self.is_target(mod, name):
+            info = self.translate(mod, name)
+            return "gen", info["name"], self.signature(owner, name, self.target_trait(mod, name))
+        if (owner, name) in MODEL_CALLEES:
+            how, what = MODEL_CALLEES[(owner, name)]
+            if owner == "broadword":
+                ps, r = BROADWORD_SIGS[name]
+                sig = ("static", [("x", parse_rtype(p, None)) for p in ps], parse_rtype(r, None))
+            else:
+                sig = self.signature(owner, name)
+            return how, what, sig
+        if mod is not None and self.is_target(mod, name):      # target of another module without model counterpart
+            info = self.translate(mod, name)
+            return "gen", info["name"], self.signature(owner, name, self.target_trait(mod, name))
+        raise ParseError("call to %s::%s, which is neither a translated function nor a known model function" % (owner, name))
 
     def has_derive_default(self, owner):
         m = re.search(r"#\[derive\(([^)]*)\)\]\s*pub struct %s\b" % owner, self.src[owner])
@@ -925,18 +1000,19 @@ class MethodsGen:
             raise ParseError("recursive call cycle through %s::%s" % key)
         self.stack.append(key)
         try:
-            owner = dict((m, o) for m, o, _ in METHOD_MODULES)[mod]
-            traits = [t for t, n in METHOD_TARGETS[mod] if n == name]
+            owner = dict((m, o) for m, o, _ in self.modules)[mod]
+            traits = [t for t, n in self.targets[mod] if n == name]
             try:
                 trait, params, ret, body = self.find_fn(owner, name, traits[0])
-                tr = FnBody(self, mod, owner, name, params, ret)
+                tr = FnBody(self, mod, owner, name, params, self.ret_source(owner, trait, ret),
+                            self.generics(owner, trait, name))
                 text, pure = tr.run(rp.parse_fn_body(body))
             except (ParseError, KeyError, IndexError, TypeError, AttributeError, ValueError) as ex:
                 if isinstance(ex, ParseError) and str(ex).startswith("target "):
                     raise
                 what = ex if isinstance(ex, ParseError) else "outside the supported subset (%s: %s)" % (
                     type(ex).__name__, ex)
-                raise ParseError("target %s::%s (%s): %s" % (mod, name, TYPE_FILES[owner], what))
+                raise ParseError("target %s::%s (%s): %s" % (mod, name, self.type_files[owner], what))
             info = dict(name="%s_%s" % (mod, name), text=text, pure=pure)
             self.done[key] = info
             self.order.append(key)
@@ -945,8 +1021,8 @@ class MethodsGen:
             self.stack.pop()
 
     def run(self):
-        for mod, _, _ in METHOD_MODULES:
-            for _, name in METHOD_TARGETS[mod]:
+        for mod, _, _ in self.modules:
+            for _, name in self.targets[mod]:
                 self.translate(mod, name)
         return [self.done[k]["text"] for k in self.order]
 
@@ -954,12 +1030,15 @@ class MethodsGen:
 class FnBody:
     """translation of one function body (see the scheme at the top of this section)"""
 
-    def __init__(self, gen, mod, owner, name, params_src, ret_src):
+    def __init__(self, gen, mod, owner, name, params_src, ret_src, generics=None):
         self.gen, self.mod, self.owner, self.name = gen, mod, owner, name
         self.self_name = owner if owner[0].isupper() else None
         self.kind = rp.self_kind(params_src)
-        self.params = [(n, parse_rtype(t, self.self_name)) for n, t in rp.typed_params(params_src)]
-        self.ret = parse_rtype(ret_src, self.self_name) if ret_src else UNIT
+        self.params = [(n, parse_rtype(t, self.self_name, generics)) for n, t in rp.typed_params(params_src)]
+        self.ret = parse_rtype(ret_src, self.self_name, generics) if ret_src else UNIT
+        self.loops = []               # open loops, innermost last: dict(brk = term of a `break`)
+        self.loop_ids = 0
+        self.ret_wrap = None          # inside a loop that can be left by `return`: the injection of the value
         self.counter = 0
         self.env = {}                 # rust name -> (coq name, type)
         self.assigned = [set()]       # per open scope: outer variables rebound in it
@@ -972,8 +1051,8 @@ class FnBody:
             self.env["self"] = ("self", ("struct", owner))
         for n, t in self.params:
             self.env[n] = (coq_ident(n), t)
-        if self.kind == "mut" and self.ret not in (UNIT, ("result", UNIT)):
-            raise ParseError("&mut self methods must return () or Result<()>")
+        if self.kind == "mut" and self.ret[0] == "result" and self.ret != ("result", UNIT):
+            raise ParseError("&mut self methods returning a Result must return Result<()>")
 
     # -- small helpers -------------------------------------------------------------------------
     def fresh(self):
@@ -1082,6 +1161,8 @@ class FnBody:
             raise ParseError("unsupported path %s" % "::".join(e[1]))
         if k == "cast":
             t, ty = self.expr(e[1], out)
+            if e[2] == "u32" and ty == USIZE:                  # truncation; only accepted as a shift amount
+                return "(N.modulo %s 4294967296)" % t, ("u32",)
             if e[2] != "usize":
                 raise ParseError("unsupported cast to %s" % e[2])
             if ty == BOOL:
@@ -1108,6 +1189,8 @@ class FnBody:
                 if f == e[2]:
                     return "(%s %s)" % (proj, t), parse_rtype(fty, ty[1])
             raise ParseError("%s has no field %s" % (ty[1], e[2]))
+        if k == "index" and e[2][0] in ("rangeto", "rangefrom", "range"):
+            return self.slice(e, out)
         if k == "index":
             vt, vty = self.expr(e[1], out)
             it, ity = self.expr(e[2], out)
@@ -1116,6 +1199,15 @@ class FnBody:
             return self.bind(out, "idx 0 %s %s" % (vt, it)), USIZE
         if k == "tuple" and not e[1]:
             return "tt", UNIT
+        if k == "tuple":
+            vals = [self.expr(x, out) for x in e[1]]
+            return "(%s)" % ", ".join(t for t, _ in vals), ("tuple", [ty for _, ty in vals])
+        if k == "vecrep":                                      # vec![elem; count]
+            t, ty = self.expr(e[1], out)
+            n, nty = self.expr(e[2], out)
+            if nty != USIZE or ty not in (USIZE, BOOL):
+                raise ParseError("unsupported vec![..; ..]")
+            return "(repeat %s (N.to_nat %s))" % (t, n), ("vec", ty)
         if k == "call":
             return self.call(e, out)
         if k == "mcall":
@@ -1127,7 +1219,7 @@ class FnBody:
             if self.value_scope or self.join_scope:
                 raise ParseError("`?` inside a conditional expression or a joined if/else")
             v = self.fresh()
-            out.append(("try", t, v, "Ok None"))
+            out.append(("try", t, v, "Ok %s" % self.inj("None")))
             return v, ty[1]
         if k == "structlit":
             owner = self.owner if e[1] == "Self" else e[1]
@@ -1143,6 +1235,25 @@ class FnBody:
         if k in ("if", "block"):
             return self.cond_value(e, out)
         raise ParseError("unsupported expression %s" % k)
+
+    def slice(self, e, out):
+        """&v[..k]  &v[j..]  &v[j..k]: the bounds check of the slice, then firstn / skipn"""
+        vt, vty = self.expr(e[1], out)
+        if vty[0] != "vec":
+            raise ParseError("slice of a non-vector")
+        r = e[2]
+        lo = self.expr(r[1], out) if r[0] in ("rangefrom", "range") else None
+        hi = self.expr(r[-1], out) if r[0] in ("rangeto", "range") else None
+        if any(x is not None and x[1] != USIZE for x in (lo, hi)):
+            raise ParseError("non-usize slice bound")
+        if lo is not None and hi is not None:
+            out.append(("bind", "_", "assert_ (andb (N.leb %s %s) (N.leb %s (lenN %s)))" % (lo[0], hi[0], hi[0], vt)))
+            return "(firstn (N.to_nat (%s - %s)) (skipn (N.to_nat %s) %s))" % (hi[0], lo[0], lo[0], vt), vty
+        if hi is not None:
+            out.append(("bind", "_", "assert_ (N.leb %s (lenN %s))" % (hi[0], vt)))
+            return "(firstn (N.to_nat %s) %s)" % (hi[0], vt), vty
+        out.append(("bind", "_", "assert_ (N.leb %s (lenN %s))" % (lo[0], vt)))
+        return "(skipn (N.to_nat %s) %s)" % (lo[0], vt), vty
 
     def cond_value(self, e, out):
         """if/else or block used as a value"""
@@ -1244,24 +1355,7 @@ class FnBody:
         return self.call_fn(owner, name, None, args, out)
 
     def resolve(self, owner, name):
-        """("gen", coq name, sig) | ("res", coq name, sig) | ("pure", format, sig)"""
-        gen = self.gen
-        mod = gen.module_of_owner.get(owner)
-        if mod == self.mod and gen.is_target(mod, name):
-            info = gen.translate(mod, name)
-            return "gen", info["name"], gen.signature(owner, name, [t for t, n in METHOD_TARGETS[mod] if n == name][0])
-        if (owner, name) in MODEL_CALLEES:
-            how, what = MODEL_CALLEES[(owner, name)]
-            if owner == "broadword":
-                ps, r = BROADWORD_SIGS[name]
-                sig = ("static", [("x", parse_rtype(p, None)) for p in ps], parse_rtype(r, None))
-            else:
-                sig = gen.signature(owner, name)
-            return how, what, sig
-        if mod is not None and gen.is_target(mod, name):      # target of another module without model counterpart
-            info = gen.translate(mod, name)
-            return "gen", info["name"], gen.signature(owner, name, [t for t, n in METHOD_TARGETS[mod] if n == name][0])
-        raise ParseError("call to %s::%s, which is neither a translated function nor a known model function" % (owner, name))
+        return self.gen.resolve_callee(self.mod, owner, name)
 
     def call_fn(self, owner, name, recv, args, out, recv_place=None):
         """recv: None (static) or (term, type) already evaluated"""
@@ -1289,7 +1383,7 @@ class FnBody:
             if rty == UNIT:
                 self.set_place(recv_place, r, out)
                 return "tt", UNIT
-            if rty == ("result", UNIT):
+            if rty == ("result", UNIT) or rty[0] != "result":
                 self.set_place(recv_place, "(fst %s)" % r, out)
                 return "(snd %s)" % r, rty
             raise ParseError("%s::%s: unsupported result type of a &mut method" % (owner, name))
@@ -1324,11 +1418,22 @@ class FnBody:
                 raise ParseError("last_mut() on a non-vector")
             out.append(("bind", "_", "assert_ (negb (N.eqb (lenN %s) 0))" % vt))
             return None, ("alias_last", place)
+        if name == "for_each" and len(args) == 1:              # it.for_each(|x| body)  ==  for x in it { body; }
+            clo = self.closure_arg(args[0], 1)
+            body = clo[2] if clo[2][0] == "block" else ("block", [("expr", clo[2])], None)
+            if self.loop_stmt(("for", clo[1][0], recv_ast, body), out):
+                raise ParseError("internal: a for loop always falls through")
+            return "tt", UNIT
         rt, rty = self.expr(recv_ast, out)
         k = rty[0]
         if k == "struct":
             return self.call_fn(rty[1], name, (rt, rty), args, out, recv_place=recv_ast)
         if k == "vec":
+            if name == "get" and len(args) == 1 and rty[1] == USIZE:
+                it, ity = self.expr(args[0], out)
+                if ity != USIZE:
+                    raise ParseError("non-usize index")
+                return "(if N.ltb %s (lenN %s) then Some (nthN %s %s 0) else None)" % (it, rt, rt, it), ("opt", USIZE)
             if name == "len" and not args:
                 return "(lenN %s)" % rt, USIZE
             if name == "is_empty" and not args:
@@ -1347,8 +1452,14 @@ class FnBody:
                 if name == "unwrap" and args:
                     raise ParseError("unwrap takes no argument")
                 return self.bind(out, "unwrap %s" % rt), rty[1]
-            if name == "as_ref" and not args:
+            if name in ("as_ref", "copied") and not args:
                 return rt, rty
+            if name == "unwrap_or" and len(args) == 1:
+                d, dty = self.expr(args[0], out)                         # the default is evaluated eagerly
+                if dty != rty[1]:
+                    raise ParseError("unwrap_or with a default of another type")
+                x = self.fresh()
+                return "(match %s with Some %s => %s | None => %s end)" % (rt, x, x, d), dty
             if name in ("is_some", "is_none") and not args:
                 a, b = ("true", "false") if name == "is_some" else ("false", "true")
                 return "(match %s with Some _ => %s | None => %s end)" % (rt, a, b), BOOL
@@ -1381,8 +1492,16 @@ class FnBody:
                     return "tt", UNIT
                 return self.bind(out, "unwrap %s" % rt), rty[1]
             raise ParseError("unsupported Result method .%s()" % name)
+        if k == "bool" and name == "then" and len(args) == 1:
+            clo = self.closure_arg(args[0], 0)
+            o, t, ty = self.value_block(lambda o: self.expr(clo[2], o))
+            if not o:
+                return "(if %s then Some %s else None)" % (rt, t), ("opt", ty)
+            return self.bind(out, ite(rt, self.res_of(o, "(Some %s)" % t), "Ok None")), ("opt", ty)
         if k == "usize":
             ats = [self.expr(a, out) for a in args]
+            if name == "wrapping_shl" and len(ats) == 1 and ats[0][1] == ("u32",):
+                return "(wshl %s %s)" % (rt, ats[0][0]), USIZE
             if any(ty != USIZE for _, ty in ats):
                 raise ParseError(".%s() with a non-usize argument" % name)
             if name == "checked_add" and len(ats) == 1:
@@ -1459,13 +1578,23 @@ class FnBody:
         if k == "return":
             out[:] = [("final", self.result(s[1], out))]          # result() has consumed the bindings of out
             return True
+        if k == "break":
+            if not self.loops or self.loops[-1]["brk"] is None:
+                raise ParseError("`break` outside a loop")
+            if self.value_scope or self.join_scope:
+                raise ParseError("break inside a conditional expression or a joined if/else")
+            self.loops[-1]["left"] = True
+            out[:] = [("final", render(out, self.loops[-1]["brk"]))]
+            return True
         if k == "expr":
             e = s[1]
             if e[0] == "macro":
                 self.assert_macro(e, out)
                 return False
-            if e[0] == "if":
+            if e[0] in ("if", "iflet"):
                 return self.if_stmt(e, out)
+            if e[0] in ("for", "while", "whilelet", "loop"):
+                return self.loop_stmt(e, out)
             if e[0] == "block":
                 raise ParseError("nested block statement")
             self.expr(e, out)                                     # evaluated for its effects
@@ -1490,8 +1619,11 @@ class FnBody:
         if op is not None and op not in BITOPS and op not in ARITH:
             raise ParseError("unsupported compound assignment %s=" % op)
         t, ty = self.expr(rhs, out)                               # right operand first (primitive operands)
-        if lhs[0] == "un" and lhs[1] == "*" and lhs[2][0] == "var":
-            alias = self.env.get(lhs[2][1], (None, ("none",)))[1]
+        if lhs[0] == "un" and lhs[1] == "*" and lhs[2][0] in ("var", "mcall"):
+            if lhs[2][0] == "var":
+                alias = self.env.get(lhs[2][1], (None, ("none",)))[1]
+            else:                                                 # *v.last_mut().unwrap() op= e
+                alias = self.expr(lhs[2], out)[1]
             if alias[0] != "alias_last" or ty != USIZE:
                 raise ParseError("unsupported assignment through a reference")
             if op is None:
@@ -1526,39 +1658,89 @@ class FnBody:
 
     @staticmethod
     def ends_with_return(block):
-        return bool(block[1]) and block[1][-1][0] == "return" and block[2] is None
+        return bool(block[1]) and block[1][-1][0] in ("return", "break") and block[2] is None
 
     @classmethod
-    def contains_return(cls, node):
+    def contains_return(cls, node, brk=True):
+        """does node contain `return` / `?` (anywhere) or, with brk, a `break` of the enclosing loop"""
         if isinstance(node, tuple):
-            if node and node[0] in ("return", "try"):
+            if node and (node[0] in ("return", "try") or (brk and node[0] == "break")):
                 return True
-            return any(cls.contains_return(x) for x in node)
+            if node and node[0] in ("for", "while", "whilelet", "loop"):
+                brk = False                                       # a `break` in there leaves the inner loop
+            return any(cls.contains_return(x, brk) for x in node)
         if isinstance(node, list):
-            return any(cls.contains_return(x) for x in node)
+            return any(cls.contains_return(x, brk) for x in node)
         return False
+
+    def inj(self, value):
+        """the value of a `return`, injected into the result of the enclosing loop step"""
+        return value if self.ret_wrap is None else self.ret_wrap % value
+
+    def fin(self, out, value):
+        return render(out, "Ok %s" % self.inj(value))
+
+    def fin_res(self, out, t):
+        return self.res_of(out, t) if self.ret_wrap is None else self.fin(out, t)
+
+    def inline_block(self, blk, out):
+        """the statements of a block that is entered unconditionally at this point (the else part of a jumping
+        `if`); True if it ends with a jump"""
+        for st in blk[1]:
+            for n in ([st[1]] if st[0] == "let" else st[1] if st[0] == "lettuple" else []):
+                if n in self.env:
+                    raise ParseError("block-local `%s` shadows an outer variable" % n)
+        if self.stmts(blk[1], out):
+            if blk[2] is not None:
+                raise ParseError("code after return")
+            return True
+        tail = blk[2]
+        if tail is None:
+            return False
+        if tail[0] in ("if", "iflet"):
+            return self.if_stmt(tail, out)
+        if tail[0] in ("for", "while", "whilelet", "loop"):
+            return self.loop_stmt(tail, out)
+        t, ty = self.expr(tail, out)
+        if ty != UNIT:
+            raise ParseError("value of an if statement is dropped")
+        return False
+
+    def jump_branch(self, blk):
+        """term of a branch that ends with return / break; inside a loop the variables it assigns belong to the
+        loop state (they are observable at the `break`)"""
+        (term, a, _) = self.scoped(lambda: self.body_term(blk[1], None))
+        if self.loops:
+            for n in a:
+                if n not in self.declared[-1]:
+                    self.assigned[-1].add(n)
+        return term
 
     def if_stmt(self, e, out):
         """`if` in statement position; returns True if both branches return"""
+        if e[0] == "iflet":
+            return self.iflet_stmt(e, out)
         cond, cty = self.expr(e[1], out)
         if cty != BOOL:
             raise ParseError("non-boolean condition")
         then, els = e[2], e[3]
-        if els is not None and els[0] == "block" and not els[1] and els[2] is not None and els[2][0] == "if":
+        if els is not None and els[0] == "block" and not els[1] and els[2] is not None and els[2][0] in ("if", "iflet"):
             els = ("block", [("expr", els[2])], None)            # else if
         if self.ends_with_return(then) and els is None:
             if self.value_scope or self.join_scope:
                 raise ParseError("return inside a conditional expression or a joined if/else")
-            (term, _, _) = self.scoped(lambda: self.body_term(then[1], None))
-            out.append(("ifret", cond, term))
+            out.append(("ifret", cond, self.jump_branch(then)))
             return False
         if self.contains_return(then) or self.contains_return(els):
             if els is not None and self.ends_with_return(then) and self.ends_with_return(els) \
                     and not (self.value_scope or self.join_scope):
-                (t1, _, _) = self.scoped(lambda: self.body_term(then[1], None))
-                (t2, _, _) = self.scoped(lambda: self.body_term(els[1], None))
+                t1 = self.jump_branch(then)
+                t2 = self.jump_branch(els)
                 out[:] = [("final", render(out, ite(cond, t1, t2)))]
                 return True
+            if els is not None and self.ends_with_return(then) and not (self.value_scope or self.join_scope):
+                out.append(("ifret", cond, self.jump_branch(then)))       # the else part continues with the rest
+                return self.inline_block(els, out)
             raise ParseError("unsupported control flow (return / ? inside one branch of an if/else)")
         # join: neither branch returns
         self.join_scope += 1
@@ -1598,6 +1780,153 @@ class FnBody:
                 self.assigned[-1].add(n)
         return False
 
+    def iflet_stmt(self, e, out):
+        """`if let Some(x) = e { ..; return / break } [else { .. }]`: the else part continues with the rest"""
+        _, name, scrut, then, els = e
+        t, ty = self.expr(scrut, out)
+        if ty[0] != "opt" or ty[1] is None:
+            raise ParseError("`if let Some(..)` on a non-Option")
+        if not self.ends_with_return(then) or self.value_scope or self.join_scope:
+            raise ParseError("`if let` is only supported when its block ends with return / break")
+        if els is not None and els[0] == "block" and not els[1] and els[2] is not None and els[2][0] in ("if", "iflet"):
+            els = ("block", [("expr", els[2])], None)            # else if
+        x = coq_ident(name)
+
+        def branch():
+            self.env[name] = (x, ty[1])
+            self.declared[-1].add(name)
+            return self.body_term(then[1], None)
+        (term, a, _) = self.scoped(branch)
+        if self.loops:
+            for n in a:
+                if n not in self.declared[-1]:
+                    self.assigned[-1].add(n)
+        out.append(("matchsome", t, x, term))
+        return self.inline_block(els, out) if els is not None else False
+
+    # -- loops -----------------------------------------------------------------------------------
+    #  state  = the outer variables (and `self`) assigned in the body, in alphabetical order
+    #  for x in <list> (no break / return)    S <- fold_res (fun S x => body ;; Ok S) list S ;;
+    #  for with break                         S <- rmap either (fold_res_brk (fun S x => ..) list S) ;;
+    #      continue = Ok (inl S), break = Ok (inr S)
+    #  for with return [and break]            t <- rmap brk_join (fold_res_brk ..) ;; match t with inr v_ => Ok v_ | inl S => rest
+    #      continue = Ok (inl S), break = Ok (inr (inl S)), return v = Ok (inr (inr v))
+    #  while / while let / loop:  the same three shapes over `loopN W (fun S => ..) S`; a false condition (a `None`)
+    #      is a break; a `loop` without `break` cannot fall through: return v = Ok (inr v) and the loop is the result
+    def iter_list(self, e, out):
+        """the list a `for` loop runs over (evaluated once, before the loop)"""
+        while e[0] == "ref" or (e[0] == "mcall" and e[2] in ("iter", "into_iter") and not e[3]):
+            e = e[1]
+        if e[0] == "bin" and e[1] == "..":
+            a, aty = self.expr(e[2], out)
+            b, bty = self.expr(e[3], out)
+            if aty != USIZE or bty != USIZE:
+                raise ParseError("range over non-usize")
+            return "(nrange %s %s)" % (a, b), USIZE
+        t, ty = self.expr(e, out)
+        if ty[0] != "vec" or ty[1] is None:
+            raise ParseError("`for` over something that is not a vector, a slice or a range")
+        return t, ty[1]
+
+    def loop_stmt(self, node, out):
+        """for / while / while let / loop in statement position; True if the loop cannot fall through"""
+        kind, body = node[0], node[-1]
+        if self.value_scope:
+            raise ParseError("loop inside a conditional expression")
+        has_ret = self.contains_return(body, brk=False)
+        has_brk = kind in ("while", "whilelet") or self.contains_break(body)
+        if has_ret and self.join_scope:
+            raise ParseError("return inside a loop inside a joined if/else")
+        falls = kind != "loop" or has_brk
+        self.loop_ids += 1
+        ph = "@STATE%d@" % self.loop_ids
+        if kind == "for":
+            lst, elty = self.iter_list(node[2], out)
+        if not has_ret:
+            cont, brk, wrap = ("Ok %s" % ph, None, None) if kind == "for" and not has_brk else \
+                ("Ok (inl %s)" % ph, "Ok (inr %s)" % ph, None)
+        elif falls:
+            cont, brk, wrap = "Ok (inl %s)" % ph, "Ok (inr (inl %s))" % ph, "(inr (inr %s))"
+        else:
+            cont, brk, wrap = "Ok (inl %s)" % ph, None, "(inr %s)"
+        ctx = dict(brk=brk, left=False, declared=set())
+        saved_wrap = self.ret_wrap
+        self.loops.append(ctx)
+        if has_ret:
+            if saved_wrap is not None:
+                raise ParseError("return inside a nested loop")
+            self.ret_wrap = wrap
+        outer = dict(self.env)
+
+        def run_body():
+            o = []
+            if kind == "while":
+                cond, cty = self.expr(node[1], o)
+                if cty != BOOL:
+                    raise ParseError("non-boolean loop condition")
+                o.append(("ifelse", cond, brk))
+            elif kind == "whilelet":
+                t, ty = self.expr(node[2], o)
+                if ty[0] != "opt" or ty[1] is None:
+                    raise ParseError("`while let Some(..)` on a non-Option")
+                self.env[node[1]] = (coq_ident(node[1]), ty[1])
+                self.declared[-1].add(node[1])
+                o.append(("try", t, coq_ident(node[1]), brk))
+            elif kind == "for" and node[1] is not None:
+                self.env[node[1]] = (coq_ident(node[1]), elty)
+                self.declared[-1].add(node[1])
+            try:
+                if self.inline_block(body, o):
+                    return o.pop()[1]
+                return render(o, cont)
+            finally:
+                ctx["declared"] = set(self.declared[-1])
+        try:
+            (term, assigned, _) = self.scoped(run_body)
+        finally:
+            self.loops.pop()
+            self.ret_wrap = saved_wrap
+        names = sorted(n for n in assigned if n in outer)
+        for n in names:
+            if n in ctx["declared"]:
+                raise ParseError("loop-local `%s` shadows a variable of the loop state" % n)
+        cn = [outer[n][0] for n in names]
+        state = "tt" if not cn else cn[0] if len(cn) == 1 else "(" + ", ".join(cn) + ")"
+        bpat = "_" if not cn else cn[0] if len(cn) == 1 else "'(" + ", ".join(cn) + ")"
+        mpat = "_" if not cn else state
+        term = term.replace(ph, state)
+        if kind == "for":
+            x = "_" if node[1] is None else coq_ident(node[1])
+            comb = "fold_res" if cont.startswith("Ok @") else "fold_res_brk"
+            loop = "%s (fun %s %s =>\n%s\n  ) %s %s" % (comb, bpat, x, indent(term, 4), lst, state)
+            if comb == "fold_res_brk":
+                loop = "rmap %s (%s)" % ("brk_join" if has_ret else "either", loop.replace("\n", "\n  "))
+        else:
+            loop = "loopN W (fun %s =>\n%s\n  ) %s" % (bpat, indent(term, 4), state)
+        for n in names:
+            if n not in self.declared[-1]:
+                self.assigned[-1].add(n)
+        if has_ret and not falls:
+            out[:] = [("final", render(out, loop))]
+            return True
+        if has_ret:
+            out.append(("bindret", mpat, loop, self.fresh()))
+        else:
+            out.append(("bind", bpat, loop))
+        return False
+
+    @classmethod
+    def contains_break(cls, node):
+        if isinstance(node, tuple):
+            if node and node[0] == "break":
+                return True
+            if node and node[0] in ("for", "while", "whilelet", "loop"):
+                return False
+            return any(cls.contains_break(x) for x in node)
+        if isinstance(node, list):
+            return any(cls.contains_break(x) for x in node)
+        return False
+
     # -- results ---------------------------------------------------------------------------------
     def check_error_value(self, e):
         """Err(anyhow!(fmt, args..)): the arguments must be effect free; they are dropped"""
@@ -1633,41 +1962,48 @@ class FnBody:
                     t, ty = self.expr(e, out)
                     if ty != UNIT:
                         raise ParseError("value returned from a () function")
-                return render(out, "Ok %s" % self.env["self"][0])
+                return self.fin(out, self.env["self"][0])
+            if ret[0] != "result":                                # &mut self with a value: (new state, value)
+                if e is None or is_ok or is_err:
+                    raise ParseError("missing result")
+                t, ty = self.expr(e, out)
+                if ty != ret and not (ty[0] == "opt" and ret[0] == "opt" and (ty[1] is None or ty[1] == ret[1])):
+                    raise ParseError("result of type %r, expected %r" % (ty, ret))
+                return self.fin(out, "(%s, %s)" % (self.env["self"][0], t))
             if is_ok:
                 if e[2][0] != ("tuple", []):
                     raise ParseError("Ok(()) expected")
-                return render(out, "Ok (%s, true)" % self_t)
+                return self.fin(out, "(%s, true)" % self_t)
             if is_err:
-                return render(out, "Ok (%s, false)" % self_t)
+                return self.fin(out, "(%s, false)" % self_t)
             if e is None:
                 raise ParseError("missing result")
             t, ty = self.expr(e, out)
             if ty != ("result", UNIT):
                 raise ParseError("result of type %r in a Result<()> function" % (ty,))
-            return render(out, "Ok (%s, %s)" % (self.env["self"][0], t))
+            return self.fin(out, "(%s, %s)" % (self.env["self"][0], t))
         if e is None:
             if ret != UNIT:
                 raise ParseError("missing result")
-            return render(out, "Ok tt")
+            return self.fin(out, "tt")
         if ret[0] == "result":
             if is_ok:
                 t, ty = self.expr(e[2][0], out)
                 if ty != ret[1]:
                     raise ParseError("Ok(..) of type %r, expected %r" % (ty, ret[1]))
-                return render(out, "Ok (Some %s)" % t)
+                return self.fin(out, "(Some %s)" % t)
             if is_err:
-                return render(out, "Ok None")
+                return self.fin(out, "None")
             t, ty = self.expr(e, out)
             if ty != ret:
                 raise ParseError("result of type %r, expected %r" % (ty, ret))
-            return self.res_of(out, t)
+            return self.fin_res(out, t)
         if is_ok or is_err:
             raise ParseError("Ok/Err in a function that does not return a Result")
         t, ty = self.expr(e, out)
         if ty != ret and not (ty[0] == "opt" and ret[0] == "opt" and (ty[1] is None or ty[1] == ret[1])):
             raise ParseError("result of type %r, expected %r" % (ty, ret))
-        return self.res_of(out, t)
+        return self.fin_res(out, t)
 
     def body_term(self, stmts, tail, out=None):
         out = [] if out is None else out
@@ -1680,6 +2016,10 @@ class FnBody:
             if tail is not None and tail[0] == "if" and tail[3] is None:
                 if self.if_stmt(tail, out):
                     raise ParseError("internal: if without else cannot return on both sides")
+                tail = None
+            elif tail is not None and tail[0] in ("for", "while", "whilelet", "loop", "iflet"):
+                if (self.if_stmt if tail[0] == "iflet" else self.loop_stmt)(tail, out):
+                    return out.pop()[1]
                 tail = None
             return self.result(tail, out)
         finally:
@@ -1696,7 +2036,8 @@ class FnBody:
         ret = self.ret
         if self.kind == "mut":
             cty = coq_type(("struct", self.owner))
-            cty = "res %s" % cty if ret == UNIT else "res (%s * bool)" % cty
+            cty = "res %s" % cty if ret == UNIT else "res (%s * bool)" % cty if ret[0] == "result" else \
+                "res (%s * %s)" % (cty, coq_type(ret))
         elif ret[0] == "result":
             cty = "res (option %s)" % coq_type(ret[1])
         else:
@@ -1727,6 +2068,99 @@ def gen_methods(repo):
     defs = g.run()
     return METHODS_HEADER + "\n" + "\n\n".join(defs) + "\n"
 
+
+
+# ---------------------------------------------------------------------------------------------
+# functions with loops -> gen/LoopsGen.v
+#
+# Same translation as gen/MethodsGen.v (class FnBody) plus the loop forms described at FnBody.loop_stmt:
+#   for x in <vector | slice | a..b | it.iter() | it.into_iter()>,  it.for_each(|x| ..),  while c,  while let Some(x) = e,
+#   loop,  break,  return inside a loop,  if let Some(x) = e { ..return/break } [else ..].
+# The loop state is the tuple of outer variables (and `self`) assigned in the body; `for` loops are folds over the list
+# (fold_res / fold_res_brk), the others `loopN W` (Base/Loops.v): at most 2^64 iterations, then Panic -- every loop of the
+# crate advances a usize counter or cursor, so a real execution performs fewer iterations than that (Proofs/LoopsTieBV.v
+# proves, under the record-range hypotheses it states, that the bound is never reached).
+# A generic parameter `I: IntoIterator<Item = T>` is a list of T (the iterator argument is consumed in order, once).
+# Iterator structs holding `&BitVector` are records defined in the generated file itself (LOOP_RECORDS).
+# Callees: targets of this file -> generated here; loop-free targets of gen/MethodsGen.v -> their generated form;
+# broadword.rs -> the spec-level word functions (C14).  Everything else in a target function: ParseError naming it.
+# ---------------------------------------------------------------------------------------------
+
+LOOP_RECORDS = {
+    "Iter": ("bviter", [("bv", "&'a BitVector", "it_bv"), ("pos", "usize", "it_pos")]),
+    "UnaryIter": ("unaryiter", [("bv", "&'a BitVector", "ui_bv"), ("pos", "usize", "ui_pos"),
+                                ("buf", "usize", "ui_buf")]),
+}
+RECORDS.update(LOOP_RECORDS)
+
+LOOP_TYPE_FILES = {
+    "BitVector": "src/bit_vectors/bit_vector.rs",
+    "Iter": "src/bit_vectors/bit_vector.rs",
+    "UnaryIter": "src/bit_vectors/bit_vector/unary.rs",
+}
+LOOP_MODULES = [
+    ("bit_vector", "BitVector", "bit_vector"),
+    ("bit_vector_iter", "Iter", "bit_vector"),
+    ("unary_iter", "UnaryIter", "bit_vector"),
+]
+LOOP_TARGETS = {
+    "bit_vector": [(None, "new"), (None, "from_bit"), (None, "from_bits"), ("Extend", "extend"), ("Rank", "rank1"),
+                   ("Select", "select1"), ("Select", "select0"), (None, "predecessor1"), (None, "predecessor0"),
+                   (None, "successor1"), (None, "successor0")],
+    "bit_vector_iter": [(None, "new"), ("Iterator", "next"), ("Iterator", "size_hint")],
+    "unary_iter": [(None, "new"), (None, "position"), (None, "skip1"), (None, "skip0"), ("Iterator", "next")],
+}
+# constants a module imports from its parent: module -> (required `use` line, module of the constants)
+LOOP_IMPORTED_CONSTS = {"UnaryIter": ("use super::WORD_LEN;", "BitVector", ["WORD_LEN"])}
+
+
+class LoopsGen(MethodsGen):
+    type_files, modules, targets = LOOP_TYPE_FILES, LOOP_MODULES, LOOP_TARGETS
+
+    def module_consts(self, owner, prefix):
+        if owner in LOOP_IMPORTED_CONSTS:
+            use, parent, names = LOOP_IMPORTED_CONSTS[owner]
+            if use not in self.src[owner]:
+                raise ParseError("%s no longer contains `%s`" % (self.type_files[owner], use))
+            env = MethodsGen.module_consts(self, parent, prefix)
+            return {n: env[n] for n in names}
+        return MethodsGen.module_consts(self, owner, prefix)
+
+    def resolve_callee(self, from_mod, owner, name):
+        mod = self.module_of_owner.get(owner)
+        if mod is not None and self.is_target(mod, name):
+            info = self.translate(mod, name)
+            return "gen", info["name"], self.signature(owner, name, self.target_trait(mod, name))
+        for m, o, _ in METHOD_MODULES:                    # loop-free methods: gen/MethodsGen.v (tied by MethodsTie.v)
+            if o == owner and owner in self.src and any(n == name for _, n in METHOD_TARGETS[m]):
+                trait = [t for t, n in METHOD_TARGETS[m] if n == name][0]
+                return "gen", "%s_%s" % (m, name), self.signature(owner, name, trait)
+        if owner == "broadword" and (owner, name) in MODEL_CALLEES:
+            how, what = MODEL_CALLEES[(owner, name)]
+            ps, r = BROADWORD_SIGS[name]
+            return how, what, ("static", [("x", parse_rtype(p, None)) for p in ps], parse_rtype(r, None))
+        raise ParseError("call to %s::%s, which is neither a translated function nor a known model function" % (owner, name))
+
+    def record_decls(self):
+        out = []
+        for owner, (rec, fields) in LOOP_RECORDS.items():
+            out.append("Record %s := { %s }." % (rec, "; ".join(
+                "%s : %s" % (proj, coq_type(parse_rtype(t, owner))) for _, t, proj in fields)))
+        return out
+
+
+LOOPS_HEADER = """(* GENERATED by tools/translate.py from the functions with loops of src/bit_vectors/bit_vector.rs and
+   src/bit_vectors/bit_vector/unary.rs -- do not edit.
+   Proofs/LoopsTieBV.v proves every definition equal to the hand-written model function. *)
+From Sucds Require Import Base.Res Base.Loops Spec.WordSpec Model.BitVector gen.ConstsGen gen.MethodsGen.
+Open Scope N_scope.
+"""
+
+
+def gen_loops(repo):
+    g = LoopsGen(repo)
+    defs = g.run()
+    return LOOPS_HEADER + "\n" + "\n".join(g.record_decls()) + "\n\n" + "\n\n".join(defs) + "\n"
 
 
 # ---------------------------------------------------------------------------------------------
@@ -1769,10 +2203,11 @@ def main():
     repo = os.environ.get("VERIF_REPO", "/repo")
     here = os.path.dirname(os.path.dirname(os.path.abspath(__file__)))
     outdir = os.path.join(os.environ.get("VERIF_COQ_DIR") or os.path.join(here, "coq"), "gen")
-    which = sys.argv[1:] or ["broadword", "consts", "serial", "methods", "fingerprints"]
+    which = sys.argv[1:] or ["broadword", "consts", "serial", "methods", "loops", "fingerprints"]
     status = 0
     gens = {"broadword": ("BroadwordGen.v", gen_broadword), "consts": ("ConstsGen.v", gen_consts),
             "serial": ("SerialGen.v", gen_serial), "methods": ("MethodsGen.v", gen_methods),
+            "loops": ("LoopsGen.v", gen_loops),
             "fingerprints": ("fingerprints.json", gen_fingerprints)}
     for w in which:
         fname, fn = gens[w]
